@@ -96,7 +96,8 @@ CLAIMED = {
               'functions executed natively (bounded stand-in) + relational schema contracts'),
   'C08': dict(
     category='other',
-    text='OkInjection / NoInject / ForceWith decision functions proved (shared with C18); RunInjections and TranslateTable '
+    text='OkInjection / NoInject / ForceWith / With decision functions, CheckAnnotatedObjects (a plan annotation names an '
+         'existing predicate or is rejected) and the edge-recording postcondition of TranslateTableAttachedToFile proved; RunInjections and TranslateTable '
          'under run-time contract; every catalogue schema x assignments of @NoInject/@With/@NoWith/@Ground to its concrete '
          'intermediates must satisfy the original spec; the SQL text must change with the annotation.',
     design_ref='DESIGN.md section 4, C08',
@@ -113,7 +114,9 @@ CLAIMED = {
     technique='contract-based deductive verification (Python-AST VCs, z3/cvc5) + bounded schema contracts'),
   'C03': dict(
     category='other',
-    text='The ignition arithmetic inside Functors.UnfoldRecursions (slice) and recursion_library.GetRecursionFunctor '
+    text='Proved (100 obligations): recursive component analysis (slice of RecursiveAnalysis: covers strongly connected, '
+         'maximal, pairwise disjoint, given a transitively closed args_of); the make-order loop of MakeAll (shared with C04); '
+         'the ignition arithmetic inside Functors.UnfoldRecursions (slice) and recursion_library.GetRecursionFunctor '
          '(depth + 2 lines, generation i+1 from generation i, P = generation depth) are proved for all depths / cover '
          'sizes; the scheduler step lemma is shared with C14; ArgsOf / CallKey / make order under bounded contract; '
          'recursion schemas (self, mutual cuttable, non-cuttable triangle, Min= shortest path; depths 1, 2, 8 and 21-25 '
@@ -148,7 +151,9 @@ CLAIMED = {
     technique='exhaustive finite checks of the dialect interface + bounded contracts on compile output (structure scanner as spec)'),
   'C12': dict(
     category='other',
-    text='The prefix loop of ParseFile (slice) is proved: the chosen prefix is not among the existing ones, the loop '
+    text='Proved (25 obligations): the assembly loop of ParseFile (slice): a normal exit means no predicate other than an '
+         '@-annotation is defined by two files (main / import, import / import), otherwise the "overridden" ParsingException; '
+         'the prefix loop of ParseFile (slice): the chosen prefix is not among the existing ones, the loop '
          'terminates, only ParsingException can be raised; RenamePredicate (every occurrence at every depth, count) and '
          'ParseImport (first root wins, parsed once, circular) under bounded contract; import graphs incl. shared base '
          'names against the hand-flattened program, both parsers in the thorough tier.',
@@ -174,7 +179,8 @@ CLAIMED = {
     technique='contracts on the real functions against a spec function, executed natively over small term domains (bounded stand-in)'),
   'C19': dict(
     category='other',
-    text='Exit-path contracts: ElliminateInternalVariables (normal return with full elimination => no internal variable), '
+    text='Proved (20 obligations): CheckDistinctConsistency accepts only consistent programs; CheckAnnotatedObjects returns '
+         'normally only if every annotated predicate exists. Exit-path contracts: ElliminateInternalVariables (normal return with full elimination => no internal variable), '
          'ExtractRuleStructure (aggregation => distinct) as run-time contracts; scanner rejection contract (Traverse / '
          'RemoveComments vs the mode automaton); a fixed catalogue of ~35 semantic and ~120 bracket/quote single-point '
          'corruptions must end in one of the four diagnostic types naming the offender, never SQL.',
